@@ -241,4 +241,6 @@ def contracts(tier):
         cs[0].maxleases = cs[1].maxleases = 3
     # "leases survive share data writes and container growth": the frame conditions of the mutable container contracts (C23)
     from contracts.C23 import WriteShareData, ChangeContainerSize
-    return cs + [WriteShareData(), ChangeContainerSize()]
+    # which lease serializer (cleartext v1 / hashed v2) a re-opened immutable container uses is decided by ShareFile.__init__ (contract of C22)
+    from contracts.C22 import ShareFileOpen
+    return cs + [WriteShareData(), ChangeContainerSize(), ShareFileOpen()]
